@@ -21,7 +21,7 @@ RULE = ("Hypothesis-generated well-typed expression trees (tagged identifiers, a
         "over [<>:a-zA-Z0-9_]+ alone and embedded. Non-trivial = depth >= 3 and >= 2 distinct operator classes "
         "(for the backtick clause: name contains a character outside [a-zA-Z0-9_]); distinct by canonical JSON.")
 ASSUMPTIONS = ["expressions are well-typed (logical operators over comparisons, arithmetic over numbers)",
-               "no complex constants, no min/max nodes, no boolean literals (the parser has no such construct)",
+               "no complex constants and no min/max nodes (the parser has no such construct)",
                "structural equality is not required (keyword dicts, 1-tuples, sum nesting differ benignly)"]
 BUDGET_S = {"quick": 90, "thorough": 1200}
 
@@ -166,7 +166,7 @@ def shrink(sub, case):
 # ---------------------------------------------------------------- exploration
 
 def expr_shard(ctx, n):
-    num, boolean = typed_exprs()
+    num, boolean = typed_exprs(bool_literals=True)
     excluded = [f for f in FEATURES if ctx.is_excluded(f)]
 
     def body(tree):
@@ -187,7 +187,8 @@ def expr_shard(ctx, n):
     strat = st.one_of(
         st.integers(1, 5).flatmap(num),
         st.integers(1, 5).flatmap(num),
-        st.integers(0, 4).flatmap(boolean))
+        st.integers(0, 4).flatmap(boolean),
+        st.booleans().map(lambda b: ["const", b]))      # the whole text is just True / False
     hyp_explore(ctx, strat, body, n, "expr")
 
 
